@@ -401,6 +401,9 @@ func cmdCheck(args []string) int {
 		}
 	}
 	onlyFilter = *only
+	if onlyFilter == "" && os.Getenv("GOCV_KEEP_REPLAYS") == "" {
+		os.RemoveAll(filepath.Join(verifRoot(), "replays", prop))
+	}
 	res := runProperty(prop, tier, to)
 	if *verbose {
 		for _, ur := range res.units {
@@ -433,9 +436,14 @@ func cmdCheck(args []string) int {
 	var undecided []string
 	var samples []any
 	newLock := map[string]lockEntry{}
+	callCovers := map[string]string{}
 	for _, ur := range res.units {
 		for _, o := range ur.obls {
 			seen[o.Name] = true
+			if o.Kind == "cover" && o.OptionalCover {
+				callCovers[o.Name] = o.Status
+				continue
+			}
 			if o.Kind == "cover" {
 				covers++
 				switch o.Status {
@@ -489,6 +497,22 @@ func cmdCheck(args []string) int {
 			}
 		}
 	}
+	// call-site vacuity guards: reachable before the call, contradictory after it
+	ccChecked, ccOK := 0, 0
+	for name, st := range callCovers {
+		if !strings.HasSuffix(name, "@after") {
+			continue
+		}
+		ccChecked++
+		before := callCovers[strings.TrimSuffix(name, "@after")+"@before"]
+		if st == "failed" && before == "discharged" {
+			fmt.Printf("gocv: TOOL ERROR vacuity guard failed: %s: the assumed contract contradicts the call site's context\n", strings.TrimSuffix(name, "@after"))
+			toolError = true
+		} else {
+			ccOK++
+		}
+	}
+	_ = ccOK
 	// obligations that used to be proved but are no longer generated
 	for name := range expected {
 		if onlyFilter != "" {
